@@ -37,3 +37,337 @@ Proof.
       { destruct (pi x), (pi y), (pi z), (memb e sg), (oddb sg (wedges p)); cbn in *; congruence. }
       exists ((e, y) :: p1), e', a, b, p2. cbn [app]. split; [reflexivity|]. split; [econstructor; eauto|]. auto.
 Qed.
+
+(* ---- the cycle of a candidate through the two tree walks --------------------------------------------------------- *)
+Lemma ts_c14_parity_weight g wts sg t c C a b pa pb :
+  simple_graph g -> lx_tree_spec Z 0%Z Z.add g wts (st_src t) t -> c14_cycle g wts t c C ->
+  ends g (c_edge c) = Some (a, b) ->
+  lx_twalk Z g (st_nodes t) (st_src t) pa a -> lx_twalk Z g (st_nodes t) (st_src t) pb b ->
+  oddb sg C = xorb (xorb (oddb sg (wedges pa)) (memb (c_edge c) sg)) (oddb sg (wedges pb)) /\
+  weight wts C = (weight wts (wedges pa) + wt wts (c_edge c) + weight wts (wedges pb))%Z.
+Proof.
+  intros Hsg Hspec [a' [b' [pa' [pb' [He' [Hpa' [Hpb' [_ [_ [_ [_ [_ [HndE [_ [HC [Hsc _]]]]]]]]]]]]]]]] He Hpa Hpb.
+  rewrite He in He'. injection He' as <- <-. unfold c12_twalk in *.
+  destruct (ts_root _ _ _ _ _ _ _ Hspec) as [ndr [Hr1 [Hr2 _]]].
+  pose proof (lx_twalk_unique Z g (st_nodes t) (st_src t) ndr Hr1 Hr2 _ _ Hpa _ Hpa') as <-.
+  pose proof (lx_twalk_unique Z g (st_nodes t) (st_src t) ndr Hr1 Hr2 _ _ Hpb _ Hpb') as <-.
+  set (s := st_src t) in *. set (e := c_edge c) in *.
+  assert (HedP : wedges (pa ++ (e, b) :: cz_rev s pb) = wedges pa ++ e :: rev (wedges pb)).
+  { unfold wedges. rewrite map_app. cbn [map fst]. fold (wedges (cz_rev s pb)). rewrite cz_rev_wedges. reflexivity. }
+  rewrite HedP in HndE.
+  assert (Hperm : Permutation C (wedges pa ++ e :: rev (wedges pb))).
+  { apply NoDup_Permutation; [apply gl_sorted_NoDup; apply Hsc|exact HndE|]. intros y. rewrite HC, HedP. reflexivity. }
+  split.
+  - rewrite (rf_oddb_perm sg _ _ Hperm), rf_oddb_app, rf_oddb_cons.
+    rewrite (rf_oddb_perm sg (rev (wedges pb)) (wedges pb)) by (apply Permutation_sym, Permutation_rev).
+    destruct (oddb sg (wedges pa)), (oddb sg (wedges pb)), (memb e sg); reflexivity.
+  - rewrite (rf_weight_perm wts _ _ Hperm), rf_weight_app, rf_weight_cons.
+    rewrite (rf_weight_perm wts (rev (wedges pb)) (wedges pb)) by (apply Permutation_sym, Permutation_rev). lia.
+Qed.
+
+(* ---- (c) one tree: the step is a candidate, or a strictly lighter odd closed walk exists ------------------------- *)
+Section Tree.
+  Variable g : graph.
+  Variable wts : list Z.
+  Variable sg : list nat.
+  Variable x : nat.
+  Variable t : sp_tree Z.
+  Variable i : nat.
+  Hypothesis Hsg : simple_graph g.
+  Hypothesis Hpos : positive_weights g wts.
+  Hypothesis Hspec : lx_tree_spec Z 0%Z Z.add g wts x t.
+
+  Notation twalk := (lx_twalk Z g (st_nodes t) x).
+
+  Lemma ts_uniq p v p' : twalk p v -> twalk p' v -> p = p'.
+  Proof.
+    destruct (ts_root _ _ _ _ _ _ _ Hspec) as [ndr [Hr1 [Hr2 _]]]. intros H H'.
+    eapply lx_twalk_unique; eauto.
+  Qed.
+
+  (* a tree edge between a and b: one tree walk extends the other, the closed walk uses every edge twice *)
+  Lemma ts_tree_edge_even e a b pa pb : In e (cd_tree_edges Z t) -> joins g e a b -> twalk pa a -> twalk pb b ->
+    xorb (xorb (oddb sg (wedges pa)) (memb e sg)) (oddb sg (wedges pb)) = false.
+  Proof.
+    intros Hin Hj Hpa Hpb. unfold cd_tree_edges in Hin. apply in_flat_map in Hin as [o [Ho He]].
+    destruct o as [nd|]; [|destruct He]. destruct (sn_pred nd) as [e'|] eqn:Ep; [|destruct He].
+    destruct He as [->|[]]. apply (In_nth _ _ None) in Ho as [y [_ Hy]].
+    assert (Hys : y <> x).
+    { intros ->. destruct (ts_root _ _ _ _ _ _ _ Hspec) as [ndr [Hr1 [Hr2 _]]]. unfold sp_node_of in Hr1.
+      rewrite Hy in Hr1. injection Hr1 as <-. congruence. }
+    destruct (ts_nonroot _ _ _ _ _ _ _ Hspec y nd Hy Hys) as [e' [u [Hp' [Hou _]]]].
+    rewrite Ep in Hp'. injection Hp' as <-.
+    pose proof (lx_opposite_joins g e y u Hou) as Hj'.
+    destruct (rf_joins_fun g e a b u y Hj Hj') as [[-> ->]|[-> ->]].
+    - (* a = parent, b = child *)
+      assert (Hpb' : twalk (pa ++ [(e, y)]) y) by (eapply ltw_snoc; eauto).
+      rewrite (ts_uniq _ _ _ Hpb Hpb'), tq_wedges_snoc, tq_oddb_snoc.
+      destruct (oddb sg (wedges pa)), (memb e sg); reflexivity.
+    - assert (Hpa' : twalk (pb ++ [(e, y)]) y) by (eapply ltw_snoc; eauto).
+      rewrite (ts_uniq _ _ _ Hpa Hpa'), tq_wedges_snoc, tq_oddb_snoc.
+      destruct (oddb sg (wedges pb)), (memb e sg); reflexivity.
+  Qed.
+
+  Lemma ts_first_ne_root v : v <> x -> sp_node_of Z t v <> None -> sp_first Z t v <> x.
+  Proof.
+    intros Hv Hn. destruct (ts_first _ _ _ _ _ _ _ Hspec v Hv Hn) as [e [q Hq]].
+    apply lx_twalk_front in Hq as [[Hc _]|[e' [c [q' [nd [Heq [_ [_ [Ho _]]]]]]]]]; [discriminate|].
+    injection Heq as <- <- <-. apply lx_opposite_joins in Ho.
+    destruct (gl_simple_joins g e x (sp_first Z t v) Hsg Ho) as (_ & _ & Hne). auto.
+  Qed.
+
+  (* a non-root vertex: its tree walk starts with the predecessor edge of first(v), followed by a tree walk from first(v) *)
+  Lemma ts_walk_split v p : v <> x -> twalk p v ->
+    exists e q nd, p = (e, sp_first Z t v) :: q /\ nth (sp_first Z t v) (st_nodes t) None = Some nd /\
+                   sn_pred nd = Some e /\ joins g e x (sp_first Z t v) /\
+                   lx_twalk Z g (st_nodes t) (sp_first Z t v) q v.
+  Proof.
+    intros Hv Hp. pose proof (lx_twalk_end _ _ _ _ _ _ Hp) as Hn.
+    destruct (ts_first _ _ _ _ _ _ _ Hspec v Hv Hn) as [e [q Hq]].
+    rewrite (ts_uniq _ _ _ Hp Hq).
+    apply lx_twalk_front in Hq as [[Hc _]|[e' [c [q' [nd [Heq [Hnd [Hpr [Ho Hq']]]]]]]]]; [discriminate|].
+    injection Heq as <- <- <-. exists e, q, nd. repeat (split; [auto|]); auto. apply lx_opposite_joins. exact Ho.
+  Qed.
+
+  Theorem ts_candidate_or_lighter e a b pa pb :
+    ends g e = Some (a, b) -> twalk pa a -> twalk pb b ->
+    xorb (xorb (oddb sg (wedges pa)) (memb e sg)) (oddb sg (wedges pb)) = true ->
+    (exists cd, cd_is_cand Z 0%Z Z.add g wts i t cd /\ c_edge cd = e) \/
+    (exists f q, walk g f q f /\ oddb sg (wedges q) = true /\
+                 (weight wts (wedges q) < weight wts (wedges pa) + wt wts e + weight wts (wedges pb))%Z).
+  Proof.
+    intros He Hpa Hpb Hodd.
+    assert (Hj : joins g e a b) by (left; exact He).
+    destruct (gl_simple_joins g e a b Hsg Hj) as (_ & _ & Hab).
+    pose proof (lx_twalk_end _ _ _ _ _ _ Hpa) as Hna. pose proof (lx_twalk_end _ _ _ _ _ _ Hpb) as Hnb.
+    destruct (memb e (cd_tree_edges Z t)) eqn:Em.
+    { apply gl_memb_In in Em. rewrite (ts_tree_edge_even e a b pa pb Em Hj Hpa Hpb) in Hodd. discriminate. }
+    destruct (Nat.eq_dec (sp_first Z t a) (sp_first Z t b)) as [Hf|Hf].
+    - right.
+      assert (Hax : a <> x).
+      { intros ->. rewrite (ts_first_root _ _ _ _ _ _ _ Hspec) in Hf.
+        apply (ts_first_ne_root b); [auto|exact Hnb|auto]. }
+      assert (Hbx : b <> x).
+      { intros ->. rewrite (ts_first_root _ _ _ _ _ _ _ Hspec) in Hf.
+        apply (ts_first_ne_root a); [auto|exact Hna|auto]. }
+      destruct (ts_walk_split a pa Hax Hpa) as (ea & qa & nda & -> & Hnda & Hpra & Hja & Hqa).
+      destruct (ts_walk_split b pb Hbx Hpb) as (eb & qb & ndb & -> & Hndb & Hprb & Hjb & Hqb).
+      rewrite <- Hf in *. rewrite Hnda in Hndb. injection Hndb as <-. rewrite Hpra in Hprb. injection Hprb as <-.
+      set (f := sp_first Z t a) in *.
+      pose proof (ts_len _ _ _ _ _ _ _ Hspec) as Hlen.
+      pose proof (lx_twalk_walk Z g (st_nodes t) f qa a Hlen Hqa) as Hwa.
+      pose proof (lx_twalk_walk Z g (st_nodes t) f qb b Hlen Hqb) as Hwb.
+      exists f, (qa ++ (e, b) :: cz_rev f qb).
+      assert (Hed : wedges (qa ++ (e, b) :: cz_rev f qb) = wedges qa ++ e :: rev (wedges qb)).
+      { unfold wedges. rewrite map_app. cbn [map fst]. fold (wedges (cz_rev f qb)). rewrite cz_rev_wedges. reflexivity. }
+      split; [|split].
+      + eapply gl_walk_app; [exact Hwa|]. econstructor; [exact Hj|]. apply cz_rev_walk; assumption.
+      + rewrite Hed, rf_oddb_app, rf_oddb_cons.
+        rewrite (rf_oddb_perm sg (rev (wedges qb)) (wedges qb)) by (apply Permutation_sym, Permutation_rev).
+        cbn [wedges map fst] in Hodd. fold (wedges qa) (wedges qb) in Hodd. rewrite !rf_oddb_cons in Hodd.
+        destruct (oddb sg (wedges qa)), (oddb sg (wedges qb)), (memb e sg), (memb ea sg); cbn in *; congruence.
+      + rewrite Hed, rf_weight_app, rf_weight_cons.
+        rewrite (rf_weight_perm wts (rev (wedges qb)) (wedges qb)) by (apply Permutation_sym, Permutation_rev).
+        cbn [wedges map fst]. fold (wedges qa) (wedges qb). rewrite !rf_weight_cons.
+        pose proof (lz_wt_pos g wts ea Hpos (gl_joins_lt g ea _ _ Hja)). lia.
+    - left. unfold sp_node_of in Hna, Hnb.
+      destruct (nth a (st_nodes t) None) as [nda|] eqn:Ea; [|contradiction].
+      destruct (nth b (st_nodes t) None) as [ndb|] eqn:Eb; [|contradiction].
+      exists {| c_tree := i; c_edge := e; c_weight := (lx_wt Z 0%Z wts e + sn_weight nda + sn_weight ndb)%Z |}.
+      split; [|reflexivity]. split; [reflexivity|]. cbn [c_edge c_weight].
+      exists a, b, nda, ndb. unfold sp_node_of. auto 10.
+  Qed.
+End Tree.
+
+(* ---- the collection built from a list of roots that meets every cycle ------------------------------------------- *)
+Section Suff.
+  Variable g : graph.
+  Variable wts : list Z.
+  Variable roots : list nat.
+  Variable trees : list (sp_tree Z).
+  Variable cands : list (cand Z).
+  Hypothesis Hsg : simple_graph g.
+  Hypothesis Hpos : positive_weights g wts.
+  Hypothesis Hcr : cycles_of_roots Z 0%Z Z.add Z.ltb g wts roots = CdOk (trees, cands).
+  (* every simple cycle has a closed walk that starts at a root *)
+  Hypothesis Hhit : forall D, simple_cycle g D -> exists x p, In x roots /\ walk g x p x /\ Permutation (wedges p) D.
+
+  Lemma ts_root_tree x : In x roots -> exists i t, nth_error trees i = Some t /\ sptree_Z g wts x = LxOk t.
+  Proof.
+    intros Hx. apply cd_cycles_of_roots_inv in Hcr as [F2 _]. apply In_nth_error in Hx as [i Hi].
+    destruct (proj1 (cd_Forall2_nth _ _ _ F2 i) x Hi) as [t [Ht Hst]]. exists i, t. auto.
+  Qed.
+
+  (* one application of (a)-(c) to an odd closed walk through a root *)
+  Lemma ts_walk_step sg x p : In x roots -> walk g x p x -> oddb sg (wedges p) = true ->
+    (exists c t C, In c cands /\ nth_error trees (c_tree c) = Some t /\ c14_cycle g wts t c C /\
+                   oddb sg C = true /\ (weight wts C <= weight wts (wedges p))%Z) \/
+    (exists f q, walk g f q f /\ oddb sg (wedges q) = true /\ (weight wts (wedges q) < weight wts (wedges p))%Z).
+  Proof.
+    intros Hx Hw Hodd. destruct (ts_root_tree x Hx) as [i [t [Hti Hst]]].
+    pose proof (gl_walk_start_lt g x p x Hsg Hw) as Hxlt.
+    destruct (lz_C12_dist g wts x Hsg Hpos Hxlt) as [t' [Hst' [_ [Hnode Hdist]]]].
+    rewrite Hst in Hst'. injection Hst' as <-.
+    pose proof (lx_sptree_spec Z 0%Z Z.add Z.ltb g wts x t Hst) as Hspec.
+    pose proof (ts_src _ _ _ _ _ _ _ Hspec) as Hsrc.
+    destruct (tq_update_parities Z 0%Z Z.add g wts x t Hspec sg) as [par [_ [_ Hpar]]].
+    destruct (ts_step_exists g sg (fun v => nth v par false) Hsg p x x Hw) as (p1 & e & a & b & p2 & -> & Hw1 & Hj & Hw2 & Hterm).
+    { rewrite xorb_nilpotent, xorb_false_l. exact Hodd. }
+    (* nodes and tree walks of a and b *)
+    assert (Hca : connected g x a) by (exists p1; exact Hw1).
+    assert (Hwb : walk g x (p1 ++ [(e, b)]) b).
+    { eapply gl_walk_app; [exact Hw1|]. econstructor; [exact Hj|]. constructor. apply (gl_simple_joins g e a b Hsg Hj). }
+    assert (Hcb : connected g x b) by (exists (p1 ++ [(e, b)]); exact Hwb).
+    apply Hnode in Hca. apply Hnode in Hcb.
+    destruct (ts_chain _ _ _ _ _ _ _ Hspec a Hca) as [pa Hpa]. destruct (ts_chain _ _ _ _ _ _ _ Hspec b Hcb) as [pb Hpb].
+    rewrite (Hpar a pa Hpa), (Hpar b pb Hpb) in Hterm.
+    destruct (sp_node_of Z t a) as [nda|] eqn:Ea; [|contradiction].
+    destruct (sp_node_of Z t b) as [ndb|] eqn:Eb; [|contradiction].
+    (* (b) weights *)
+    assert (Hwa_eq : sn_weight nda = weight wts (wedges pa)).
+    { rewrite (ts_weight _ _ _ _ _ _ _ Hspec a nda pa Ea Hpa), lz_wsum_sum, lz_sum_weight. reflexivity. }
+    assert (Hwb_eq : sn_weight ndb = weight wts (wedges pb)).
+    { rewrite (ts_weight _ _ _ _ _ _ _ Hspec b ndb pb Eb Hpb), lz_wsum_sum, lz_sum_weight. reflexivity. }
+    pose proof (Hdist a nda p1 Ea Hw1) as Hda.
+    pose proof (Hdist b ndb (cz_rev b p2) Eb (cz_rev_walk g b p2 x Hsg Hw2)) as Hdb.
+    rewrite cz_rev_wedges in Hdb.
+    rewrite (rf_weight_perm wts (rev (wedges p2)) (wedges p2)) in Hdb by (apply Permutation_sym, Permutation_rev).
+    assert (Hwp : weight wts (wedges (p1 ++ (e, b) :: p2)) = (weight wts (wedges p1) + wt wts e + weight wts (wedges p2))%Z).
+    { rewrite rf_wedges_app. cbn [wedges map fst]. fold (wedges p2). rewrite rf_weight_app, rf_weight_cons. lia. }
+    assert (Hbound : (weight wts (wedges pa) + wt wts e + weight wts (wedges pb) <= weight wts (wedges (p1 ++ (e, b) :: p2)))%Z) by lia.
+    (* (c) in the orientation of the edge *)
+    assert (Hcase : forall a0 b0 pa0 pb0, ends g e = Some (a0, b0) ->
+              lx_twalk Z g (st_nodes t) x pa0 a0 -> lx_twalk Z g (st_nodes t) x pb0 b0 ->
+              xorb (xorb (oddb sg (wedges pa0)) (memb e sg)) (oddb sg (wedges pb0)) = true ->
+              (weight wts (wedges pa0) + wt wts e + weight wts (wedges pb0) <= weight wts (wedges (p1 ++ (e, b) :: p2)))%Z ->
+              (exists c t C, In c cands /\ nth_error trees (c_tree c) = Some t /\ c14_cycle g wts t c C /\
+                   oddb sg C = true /\ (weight wts C <= weight wts (wedges (p1 ++ (e, b) :: p2)))%Z) \/
+              (exists f q, walk g f q f /\ oddb sg (wedges q) = true /\
+                           (weight wts (wedges q) < weight wts (wedges (p1 ++ (e, b) :: p2)))%Z)).
+    { intros a0 b0 pa0 pb0 He Hpa0 Hpb0 Ht0 Hb0.
+      destruct (ts_candidate_or_lighter g wts sg x t i Hsg Hpos Hspec e a0 b0 pa0 pb0 He Hpa0 Hpb0 Ht0)
+        as [[cd [Hcd Hce]]|[f [q [Hq1 [Hq2 Hq3]]]]].
+      - left. pose proof Hcd as [Hci _].
+        assert (Hin : In cd cands).
+        { pose proof Hcr as Hcr'. apply cd_cycles_of_roots_inv in Hcr' as [_ ->]. apply cd_cycles_of_trees_In.
+          exists t. rewrite Hci. auto. }
+        destruct (cz_roots_sound g wts roots trees cands Hsg Hpos Hcr cd Hin) as [t'' [C [Ht'' [_ HC]]]].
+        rewrite Hci, Hti in Ht''. injection Ht'' as <-.
+        assert (Hspec' : lx_tree_spec Z 0%Z Z.add g wts (st_src t) t) by (rewrite Hsrc; exact Hspec).
+        rewrite <- Hsrc in Hpa0, Hpb0. rewrite <- Hce in He.
+        destruct (ts_c14_parity_weight g wts sg t cd C a0 b0 pa0 pb0 Hsg Hspec' HC He Hpa0 Hpb0) as [Ho Hwt].
+        rewrite Hce in Ho, Hwt. exists cd, t, C. rewrite Hci. repeat (split; [auto|]).
+        + rewrite Ho. exact Ht0.
+        + lia.
+      - right. exists f, q. repeat (split; [auto|]). lia. }
+    destruct Hj as [He|He].
+    - apply (Hcase a b pa pb He Hpa Hpb Hterm Hbound).
+    - apply (Hcase b a pb pa He Hpb Hpa); [|lia].
+      destruct (oddb sg (wedges pa)), (oddb sg (wedges pb)), (memb e sg); cbn in *; congruence.
+  Qed.
+
+  (* induction on the weight: every odd simple cycle is dominated by an odd candidate *)
+  Lemma ts_dominated_ind sg : forall n D, simple_cycle g D -> oddb sg D = true -> (weight wts D < Z.of_nat n)%Z ->
+    tr_dominated g wts trees cands sg D.
+  Proof.
+    induction n as [|n IH]; intros D HD Ho Hn.
+    - pose proof (rf_weight_nonneg g wts D Hpos). lia.
+    - destruct (Hhit D HD) as (x & p & Hx & Hw & Hperm).
+      assert (HoP : oddb sg (wedges p) = true) by (rewrite (rf_oddb_perm sg _ _ Hperm); exact Ho).
+      assert (HwP : weight wts (wedges p) = weight wts D) by (apply rf_weight_perm; exact Hperm).
+      destruct (ts_walk_step sg x p Hx Hw HoP) as [(c & t & C & H1 & H2 & H3 & H4 & H5)|(f & q & Hq1 & Hq2 & Hq3)].
+      + exists c, t, C. repeat (split; [assumption|]). lia.
+      + destruct (rf_shortcut_simple_cycle g wts sg Hsg Hpos q f Hq1 Hq2) as (p' & _ & HD' & Ho' & Hw').
+        destruct (IH _ HD' Ho') as (c & t & C & H1 & H2 & H3 & H4 & H5); [lia|].
+        exists c, t, C. repeat (split; [assumption|]). lia.
+  Qed.
+
+  Theorem ts_roots_sufficient : collection_sufficient_all g wts trees cands.
+  Proof.
+    intros sg D HD Ho. apply (ts_dominated_ind sg (S (Z.to_nat (weight wts D))) D HD Ho).
+    pose proof (rf_weight_nonneg g wts D Hpos). lia.
+  Qed.
+End Suff.
+
+(* ---- the roots of Horton's collection and of the FVS collection meet every cycle -------------------------------- *)
+
+Lemma ts_rotate g x p v : simple_graph g -> walk g x p x -> In v (wverts p) ->
+  exists p', walk g v p' v /\ Permutation (wedges p') (wedges p).
+Proof.
+  intros Hs Hw Hv. unfold wverts in Hv. apply in_map_iff in Hv as [[e v'] [Hv' Hin]]. cbn [snd] in Hv'. subst v'.
+  apply in_split in Hin as [p1 [p2 ->]].
+  change (p1 ++ (e, v) :: p2) with (p1 ++ [(e, v)] ++ p2) in Hw. rewrite app_assoc in Hw.
+  destruct (rf_walk_app_inv g Hs _ _ _ _ Hw) as (y & Hw1 & Hw2).
+  assert (y = v) by (eapply rf_walk_last; exact Hw1). subst y.
+  exists (p2 ++ (p1 ++ [(e, v)])). split; [eapply gl_walk_app; eauto|].
+  unfold wedges. rewrite !map_app. cbn [map fst]. rewrite Permutation_app_comm, <- app_assoc. reflexivity.
+Qed.
+
+Lemma ts_simple_cycle_walk g D : simple_cycle g D ->
+  exists x p, walk g x p x /\ p <> [] /\ Permutation (wedges p) D.
+Proof.
+  intros (Hne & Hsd & x & p & Hw & Hnd & _ & HE). exists x, p. split; [exact Hw|]. split.
+  - intros ->. destruct D as [|e D]; [congruence|]. destruct (proj1 (HE e) (or_introl eq_refl)).
+  - apply NoDup_Permutation; [exact Hnd|apply gl_sorted_NoDup; exact Hsd|]. intros e. symmetry. apply HE.
+Qed.
+
+Lemma ts_hit_all g : simple_graph g ->
+  forall D, simple_cycle g D -> exists x p, In x (seq 0 (nv g)) /\ walk g x p x /\ Permutation (wedges p) D.
+Proof.
+  intros Hs D HD. destruct (ts_simple_cycle_walk g D HD) as (x & p & Hw & _ & Hperm).
+  exists x, p. split; [|auto]. apply in_seq. pose proof (gl_walk_start_lt g x p x Hs Hw). lia.
+Qed.
+
+Lemma ts_hit_fvs g fvs : simple_graph g -> feedback_vertex_set g fvs ->
+  forall D, simple_cycle g D -> exists x p, In x fvs /\ walk g x p x /\ Permutation (wedges p) D.
+Proof.
+  intros Hs (_ & _ & Hac) D HD.
+  destruct (ts_simple_cycle_walk g D HD) as (x & p & Hw & Hpne & Hperm).
+  pose proof (simple_cycle_in_cycle_space g D Hs HD) as (HDs & HDv & HDe).
+  destruct HD as (HDne & _).
+  set (bad := fun e => match ends g e with Some (s, t) => memb s fvs || memb t fvs | None => true end).
+  destruct (existsb bad D) eqn:Eb.
+  - apply existsb_exists in Eb as [e [HeD Hbad]]. unfold bad in Hbad.
+    destruct (ends g e) as [[s t]|] eqn:Ee.
+    + assert (Hj : joins g e s t) by (left; exact Ee).
+      assert (HeP : In e (wedges p)) by (eapply Permutation_in; [apply Permutation_sym; exact Hperm|exact HeD]).
+      destruct (rf_walk_edge_ends g e s t Hj p x x Hw HeP) as [Hs1 Ht1].
+      assert (Hx : In x (wverts p)) by (eapply rf_walk_end_in; eauto).
+      assert (Hv : exists v, In v fvs /\ In v (wverts p)).
+      { apply orb_true_iff in Hbad as [Hm|Hm]; apply gl_memb_In in Hm.
+        - exists s. split; [exact Hm|]. destruct Hs1 as [<-|H]; assumption.
+        - exists t. split; [exact Hm|]. destruct Ht1 as [<-|H]; assumption. }
+      destruct Hv as [v [Hvf Hvp]]. destruct (ts_rotate g x p v Hs Hw Hvp) as [p' [Hw' Hp']].
+      exists v, p'. split; [exact Hvf|]. split; [exact Hw'|]. eapply Permutation_trans; eauto.
+    + exfalso. unfold ends in Ee. apply nth_error_None in Ee. specialize (HDv e HeD). unfold ne in HDv. lia.
+  - exfalso. apply (Hac D HDs HDne); [|exact HDe].
+    intros e HeD. unfold surviving_edges. apply filter_In. split; [apply in_seq; specialize (HDv e HeD); lia|].
+    assert (Hb : bad e = false).
+    { destruct (bad e) eqn:E; [|reflexivity]. assert (existsb bad D = true) by (apply existsb_exists; eauto). congruence. }
+    unfold bad in Hb. destruct (ends g e) as [[s t]|]; [|discriminate].
+    apply orb_false_iff in Hb as [-> ->]. reflexivity.
+Qed.
+
+(* ---- the two sufficiency theorems ---------------------------------------------------------------------------------- *)
+
+Theorem horton_sufficient g wts trees cands : simple_graph g -> positive_weights g wts ->
+  horton_cycles_Z g wts = CdOk (trees, cands) -> collection_sufficient_all g wts trees cands.
+Proof.
+  intros Hsg Hpos H. apply (ts_roots_sufficient g wts (seq 0 (nv g)) trees cands Hsg Hpos H). apply ts_hit_all. exact Hsg.
+Qed.
+
+Theorem fvs_sufficient g wts picks trees cands : simple_graph g -> positive_weights g wts ->
+  fvs_cycles_Z g wts picks = CdOk (trees, cands) -> collection_sufficient_all g wts trees cands.
+Proof.
+  intros Hsg Hpos H. unfold fvs_cycles_Z, fvs_cycles in H. destruct (greedy_fvs g picks) as [fvs| | |] eqn:Ef; try discriminate.
+  destruct (greedy_fvs_correct g picks fvs Hsg Ef) as [_ Hfvs].
+  apply (ts_roots_sufficient g wts fvs trees cands Hsg Hpos H). apply ts_hit_fvs; assumption.
+Qed.
+
+(* STATED, NOT PROVED (needs the theory of isometric cycles over consistent shortest paths): the isometric collection *)
+Definition iso_sufficient_statement : Prop :=
+  forall g wts trees cands, simple_graph g -> positive_weights g wts ->
+    iso_cycles_Z g wts = CdOk (trees, cands) -> collection_sufficient_all g wts trees cands.
+
+Print Assumptions horton_sufficient.
+Print Assumptions fvs_sufficient.
